@@ -185,6 +185,8 @@ struct Env {
     std::unique_ptr<SimpleStringCacheAllocator> cacheW[3];
     MemoryLeakAllocator mla0, mla1, mla2;
     long failures = 0;
+    bool route_only = false;          // true: never touch the process-wide current allocators, use whatever is installed
+    const char* qual = nullptr;       // signature qualifier overriding "/wrapper"
 
     explicit Env(bool typecheck, bool threadsafe = false) : mla0(defaultNewAllocator()), mla1(defaultNewArrayAllocator()), mla2(defaultMallocAllocator()) {
         arena_reset();
@@ -222,8 +224,7 @@ struct Env {
 
     // allocation through channel (family f, wrapper w); user bytes filled with pat()
     Blk alloc(int f, int w, size_t size, bool via_realloc = false) {
-        TestMemoryAllocator* cur = current_for(f, w);
-        setcur(f, cur);
+        if (!route_only) setcur(f, current_for(f, w));
         char* p;
         vf::ctx(via_realloc ? "realloc(NULL)" : ALLOC_NAME[f]);
         {
@@ -243,8 +244,7 @@ struct Env {
     }
     // release through channel (kind, family f, wrapper w) of an arbitrary address; returns realloc's result
     void* release(int kind, int f, int w, void* addr, size_t newsize = 0) {
-        TestMemoryAllocator* cur = current_for(f, w);
-        setcur(f, cur);
+        if (!route_only) setcur(f, current_for(f, w));
         rep.reset();
         det->outputBuffer_.clear();          // texts of earlier reports must not run into this one (see notes: not asserted)
         void* r = nullptr;
@@ -266,7 +266,7 @@ struct Env {
     // compares the observed report with the reference; returns true when a report was made
     bool judge(const char* chan, bool wrapped, Cat want, const std::function<std::string()>& desc) {
         Cat got = classify(rep);
-        std::string c = std::string(chan) + (wrapped ? "/wrapper" : "");
+        std::string c = std::string(chan) + (qual ? qual : wrapped ? "/wrapper" : "");
         if (got != want) {
             failures++;
             vf::fail(c + "/want-" + CAT[want] + "/got-" + CAT[got], desc() + vf::fmt(": expected report '%s', observed '%s'%s%s", CAT[want], CAT[got], rep.calls ? " text: " : "", rep.calls ? rep.first : ""));
@@ -279,7 +279,7 @@ struct Env {
         if (!g_watch.seen) return "not-returned";
         if (g_watch.kept) {
             failures++;
-            vf::fail(std::string(chan) + (wrapped ? "/wrapper" : "") + "/user-bytes-not-overwritten-before-return", desc() + vf::fmt(": %ld of %zu user bytes still held the user's value when the block was handed back", g_watch.kept, g_watch.size));
+            vf::fail(std::string(chan) + (qual ? qual : wrapped ? "/wrapper" : "") + "/user-bytes-not-overwritten-before-return", desc() + vf::fmt(": %ld of %zu user bytes still held the user's value when the block was handed back", g_watch.kept, g_watch.size));
             return "kept";
         }
         return g_watch.not_cd ? "overwritten-other" : "overwritten-cd";
@@ -609,6 +609,107 @@ void addr_case(long idx) {
     if (vf::want_sample()) vf::sample(desc());
 }
 
+// ------------------------------------------------------------------ section routing: the process-wide current allocators
+// Allocation and release go through the global routing only (operator new / new[] / cpputest_malloc..., operator delete /
+// delete[] / cpputest_free / cpputest_realloc with the detector's overloads on): the harness never names an allocator.
+// Before the allocation and between allocation and release every history of allocator manipulations up to a depth is
+// executed: GlobalMemoryAllocatorStash save / restore, setCurrentXAllocator(custom of family X) / ...ToDefault for each
+// family, GlobalMemoryAccountant start / stop. Oracle as everywhere (the allocating OPERATOR's family against the
+// releasing entry point's family); in addition a slot model of the three current allocators is compared with
+// getCurrentXAllocator() after every manipulation.
+TestMemoryAllocator g_custom_new("Standard New Allocator", "new", "delete");            // custom allocators OF the family:
+TestMemoryAllocator g_custom_arr("Standard New [] Allocator", "new []", "delete []");   // the library's own notion of
+TestMemoryAllocator g_custom_mal("Standard Malloc Allocator", "malloc", "free");        // "equal type" is the name
+TestMemoryAllocator* custom(int f) { return f == NEW ? &g_custom_new : f == ARR ? &g_custom_arr : &g_custom_mal; }
+TestMemoryAllocator* current(int f) { return f == NEW ? getCurrentNewAllocator() : f == ARR ? getCurrentNewArrayAllocator() : getCurrentMallocAllocator(); }
+enum { S_DEF = 0, S_CUSTOM = 1, S_ACCT = 2 };
+enum { O_SAVE, O_RESTORE, O_SETC0, O_SETC1, O_SETC2, O_SETD0, O_SETD1, O_SETD2, O_START, O_STOP, O_COUNT };
+const char* OP_NAME[] = {"stash.save", "stash.restore", "setCurrentNewAllocator(custom)", "setCurrentNewArrayAllocator(custom)", "setCurrentMallocAllocator(custom)",
+                         "setCurrentNewAllocatorToDefault", "setCurrentNewArrayAllocatorToDefault", "setCurrentMallocAllocatorToDefault", "accountant.start", "accountant.stop"};
+struct Routing {
+    int slot[3] = {S_DEF, S_DEF, S_DEF};
+    bool saved = false; int saved_slot[3] = {0, 0, 0};
+    bool started = false, stopped = false, diverged = false; int orig[3] = {0, 0, 0};
+    GlobalMemoryAllocatorStash stash;
+    std::unique_ptr<GlobalMemoryAccountant> ga;
+    bool enabled(int op) const {
+        if ((op == O_START || op == O_STOP) && diverged) return false;
+        if (op == O_START) return !started;                                   // a second start() is a documented usage error (FAIL)
+        if (op == O_STOP) return started && !stopped && slot[0] == S_ACCT && slot[1] == S_ACCT && slot[2] == S_ACCT;   // likewise
+        return true;
+    }
+    void apply(int op) {
+        switch (op) {
+        case O_SAVE: stash.save(); saved = true; for (int i = 0; i < 3; i++) saved_slot[i] = slot[i]; break;
+        case O_RESTORE: stash.restore(); if (saved) for (int i = 0; i < 3; i++) slot[i] = saved_slot[i]; break;
+        case O_SETC0: case O_SETC1: case O_SETC2: setcur(op - O_SETC0, custom(op - O_SETC0)); slot[op - O_SETC0] = S_CUSTOM; break;
+        case O_SETD0: setCurrentNewAllocatorToDefault(); slot[0] = S_DEF; break;
+        case O_SETD1: setCurrentNewArrayAllocatorToDefault(); slot[1] = S_DEF; break;
+        case O_SETD2: setCurrentMallocAllocatorToDefault(); slot[2] = S_DEF; break;
+        case O_START: ga.reset(new GlobalMemoryAccountant); ga->start(); started = true; for (int i = 0; i < 3; i++) { orig[i] = slot[i]; slot[i] = S_ACCT; } break;
+        case O_STOP: ga->stop(); stopped = true; for (int i = 0; i < 3; i++) slot[i] = orig[i]; break;
+        }
+    }
+    TestMemoryAllocator* expected(int f) const {
+        if (slot[f] == S_DEF) return defalloc(f);
+        if (slot[f] == S_CUSTOM) return custom(f);
+        return f == NEW ? ga->getNewAllocator() : f == ARR ? ga->getNewArrayAllocator() : ga->getMallocAllocator();
+    }
+};
+void routing_case(vf::Chooser& ch, int depth_before, int depth_between) {
+    int T = ch.choose(2), gs = ch.choose(2), fa = ch.choose(3), rc = ch.choose(4);      // rc: delete, delete[], free, realloc
+    int fr = rc == 3 ? MAL : rc, kind = rc == 3 ? K_REALLOC : K_GLOBAL;
+    Env env(T != 0);
+    env.route_only = true; env.qual = "/routed";
+    Routing ro;
+    std::string trace; int nops = 0; bool bad_slot = false;
+    auto check_slots = [&]() {
+        for (int f = 0; f < 3; f++) {
+            TestMemoryAllocator* c = current(f);
+            if (strcmp(c->actualAllocator()->name(), defalloc(f)->name()) != 0) {
+                bad_slot = true;
+                vf::fail("routing/current-allocator-of-another-family", trace + vf::fmt(": the current %s allocator is now '%s'", ALLOC_NAME[f], c->actualAllocator()->name()));
+            } else if (c != ro.expected(f)) {
+                bad_slot = true;
+                vf::fail(ro.slot[f] == S_DEF ? "routing/default-allocator-not-current" : "routing/current-allocator-not-the-installed-one", trace + vf::fmt(": the current %s allocator is not the %s one", ALLOC_NAME[f], ro.slot[f] == S_DEF ? "default" : ro.slot[f] == S_CUSTOM ? "custom" : "accounting"));
+            }
+        }
+    };
+    auto history = [&](int depth) {
+        for (int i = 0; i < depth; i++) {
+            int en[O_COUNT], n = 0;
+            for (int op = 0; op < O_COUNT; op++) if (ro.enabled(op)) en[n++] = op;
+            int c = ch.choose(n + 1);
+            if (c == 0) break;
+            int op = en[c - 1];
+            vf::ctx(OP_NAME[op]);
+            ro.apply(op);
+            trace += std::string(OP_NAME[op]) + "; "; nops++;
+            check_slots();
+            if (bad_slot) ro.diverged = true;  // the slot model no longer describes the library: accountant start/stop (whose
+                                               // usage rules are decided on the model) are not issued any more; the verdict is still judged
+        }
+    };
+    history(depth_before);
+    Blk b = env.alloc(fa, W_NONE, 5);
+    trace += vf::fmt("p = %s(5); ", ALLOC_NAME[fa]);
+    if (gs) { b.p[b.size + 1] = (char)(b.g0[1] ^ 0x10); trace += "p[6] overwritten; "; }
+    history(depth_between);
+    bool changed = guard_changed(b);
+    trace += vf::fmt("%s(p)", chan_name(kind, fr));
+    auto desc = [&]() { return trace + vf::fmt(" (type checking %s)", T ? "on" : "off"); };
+    env.watch(b);
+    env.release(kind, fr, W_NONE, b.p, 9);
+    Cat want = reference(true, false, fa, fr, T != 0, changed);
+    env.judge(chan_name(kind, fr), false, want, desc);
+    const char* pv = kind == K_GLOBAL ? env.poison_verdict(chan_name(kind, fr), false, desc) : "n/a";
+    env.anomalies();
+    vf::outcome(vf::fmt("%s<-%s %s %s slots %d%d%d", chan_name(kind, fr), ALLOC_NAME[fa], CAT[want], pv, ro.slot[0], ro.slot[1], ro.slot[2]));
+    if (nops && want != C_NONE) vf::count("nontrivial");
+    vf::count("ops", nops + 2);
+    if (vf::want_sample()) vf::sample(desc());
+}
+
 // ------------------------------------------------------------------ section hist: histories up to the first report
 void hist_case(vf::Chooser& ch, int depth, int maxlive) {
     Env env(true);
@@ -758,5 +859,10 @@ int main(int argc, char** argv) {
     vf::info("hist.bound", vf::fmt("every history of <= %d operations over {new, new[], malloc (<= %d outstanding, distinct sizes); per outstanding block: delete, delete[], free, realloc, flip one guard byte; per most recently released block: release again through its own and through another family; toggle type checking}, ended by the first due report; all blocks in one hash bucket; remaining blocks released through their own family at the end", depth, maxlive));
     vf::section_dfs("hist", 3, false, [&](vf::Chooser& ch) { hist_case(ch, depth, maxlive); });
     vf::require_outcomes("hist", 20);
+
+    int rb = TH ? 3 : 2, rbt = 2;
+    vf::info("routing.bound", vf::fmt("3 allocating operators (new, new[], malloc) x 4 releasing entry points (delete, delete[], free, realloc) through the global routing only x type checking on/off x guard {intact, one byte changed} x every history of <= %d allocator manipulations before the allocation x every history of <= %d between allocation and release, over {GlobalMemoryAllocatorStash save, restore; setCurrent{New,NewArray,Malloc}Allocator(custom allocator of that family); setCurrent{New,NewArray,Malloc}AllocatorToDefault; GlobalMemoryAccountant start, stop (only where the documented usage allows them)}; after every manipulation the three current allocators are compared with a slot model", rb, rbt));
+    vf::section_dfs("routing", 4, false, [&](vf::Chooser& ch) { routing_case(ch, rb, rbt); });
+    vf::require_outcomes("routing", 40);
     return vf::finish();
 }
